@@ -10,6 +10,7 @@ import (
 	"regexp"
 	"sort"
 	"strings"
+	"sync"
 	"testing"
 	"time"
 	"unicode"
@@ -34,6 +35,16 @@ type c07Case struct {
 	Algo    int    `json:"algo"`
 }
 
+type c07Seen struct {
+	text string
+	key  []byte
+}
+
+var (
+	c07Mu      sync.Mutex
+	c07Earlier []c07Seen
+)
+
 func checkC07(c c07Case) verdict {
 	text := gen.Spell(c.Key, c.Sp)
 	labels := []string{fmt.Sprintf("len%%5=%d", len(c.Key)%5), fmt.Sprintf("pad=%d", c.Sp.Pad), fmt.Sprintf("case=%d", c.Sp.Case)}
@@ -45,6 +56,26 @@ func checkC07(c c07Case) verdict {
 	if err != nil || !bytes.Equal(got, c.Key) {
 		return bad(nt, labels, "DecodeSecret(%q) = %x, %v; want %x", text, got, err, c.Key)
 	}
+	// texts decoded earlier in this process decode to the same bytes again, character for character the same text — at
+	// every age from the previous case to several hundred cases back (a bounded table of recent secrets that recycles its
+	// storage serves a stale or half-overwritten entry only for some ages)
+	c07Mu.Lock()
+	for _, age := range []int{1, 2, 3, 5, 8, 13, 21, 34, 55, 89, 144, 233, 377, 610, 987} {
+		if age > len(c07Earlier) {
+			break
+		}
+		e := c07Earlier[len(c07Earlier)-age]
+		if again, aerr := otp.DecodeSecret(e.text); aerr != nil || !bytes.Equal(again, e.key) {
+			c07Earlier = nil
+			c07Mu.Unlock()
+			return bad(true, labels, "DecodeSecret(%q), a text decoded correctly %d decodes ago, now gives %x, %v; want %x", e.text, age, again, aerr, e.key)
+		}
+	}
+	c07Earlier = append(c07Earlier, c07Seen{text, append([]byte(nil), c.Key...)})
+	if len(c07Earlier) > 2000 {
+		c07Earlier = append([]c07Seen(nil), c07Earlier[len(c07Earlier)-1000:]...)
+	}
+	c07Mu.Unlock()
 	// every generation / validation entry point sees the same key
 	p := &otp.Param{Digits: otp.Digits(c.Digits), Algorithm: otp.Algorithm(c.Algo), Period: 30, Skew: 1}
 	want := ref.MustHOTP(c.Key, c.Counter, c.Digits, c.Algo)
@@ -144,7 +175,7 @@ func checkC07Bad(c c07BadCase) verdict {
 }
 
 var c07Bad = newPart("C07", "invalid",
-	"rapid: invalid classes built from a valid encoding: (1) one interior run of 1..16 characters outside A-Za-z2-7= (ASCII punctuation, digits 0 1 8 9, Latin-1 and other non-ASCII letters incl. U+017F and U+0131 whose Unicode upper-case is ASCII; never white space), replacing or inserted; (2) alphabet text whose unpadded length is 1, 3 or 6 mod 8, bare or padded to a multiple of 8; (3) '=' inserted before a non-'=' character; in any letter case, optionally surrounded by blanks; oracle: DecodeSecret, GenerateHOTP and ValidateTOTP return an error; every case non-trivial",
+	"rapid: invalid classes built from a valid encoding: (1) one interior run of 1..16 characters outside A-Za-z2-7= (ASCII punctuation, digits 0 1 8 9, Latin-1 and other non-ASCII letters incl. U+017F and U+0131 whose Unicode upper-case is ASCII; never white space), replacing or inserted; (2) alphabet text whose unpadded length is 1, 3 or 6 mod 8, bare or padded to a multiple of 8; (3) '=' inserted before a non-'=' character; (4) a valid spelling with one foreign byte (0x85, 0xA0, NUL, DEL, 0xFF, 0x1C, 0x1F) at its very start or end, also between the text and surrounding blanks; in any letter case, optionally surrounded by blanks; oracle: DecodeSecret, GenerateHOTP and ValidateTOTP return an error; every case non-trivial",
 	checkC07Bad)
 
 var badChars = []string{"!", "\"", "#", "$", "%", "&", "'", "(", ")", "*", "+", ",", "-", ".", "/", ":", ";", "<", ">", "?", "@", "[", "\\", "]", "^", "_", "`", "{", "|", "}", "~",
@@ -161,7 +192,25 @@ func genC07Bad(t *rapid.T) c07BadCase {
 		return string(b)
 	}
 	var text, class string
-	switch rapid.IntRange(0, 3).Draw(t, "class") {
+	switch rapid.IntRange(0, 4).Draw(t, "class") {
+	case 4:
+		// a valid spelling with ONE foreign byte at its very start or end (also between the text and surrounding blanks): bytes
+		// that some table or library calls white space when it reads bytes as Latin-1 code points (0x85 NEL, 0xA0 NBSP — as
+		// lone bytes they are not even characters), NUL, DEL, 0xFF, the separators 0x1C..0x1F
+		n := rapid.IntRange(1, 40).Draw(t, "n")
+		body := gen.Spell(rapid.SliceOfN(rapid.Byte(), n, n).Draw(t, "key"), gen.DrawSpelling(t))
+		fb := string([]byte{rapid.SampledFrom([]byte{0x85, 0xA0, 0x00, 0x7F, 0xFF, 0x1C, 0x1F, 0x85, 0xA0}).Draw(t, "foreign")})
+		switch rapid.IntRange(0, 3).Draw(t, "where") {
+		case 0:
+			text = fb + body
+		case 1:
+			text = body + fb
+		case 2:
+			text = " " + fb + body
+		default:
+			text = body + fb + "\n"
+		}
+		return c07BadCase{Text: text, Class: "foreign-byte-at-the-ends"}
 	case 0, 1:
 		n := rapid.IntRange(2, 64).Draw(t, "n")
 		body := ref.B32(rapid.SliceOfN(rapid.Byte(), n, n).Draw(t, "key"))
